@@ -28,7 +28,7 @@ REQUIRED_MONITORS = ["matches_documented_rotation", "rotation_invariance", "inve
 REQUIRED_BUCKETS = {"quick": ["jitter:0", "jitter:1", "jitter:2", "jitter:3", "size_pd:0", "size_pd:>=2",
                               "angle:theta0", "angle:theta90", "angle:theta180", "angle:near360", "asymmetric",
                               "symmetric", "lane:asan", "angle_without_loop_slot",
-                              "mesh>100:size-innermost"]}
+                              "mesh>100:size-innermost", "jitter:one-point-with-width", "sequence:one-angle-changed"]}
 REQUIRED_BUCKETS["thorough"] = REQUIRED_BUCKETS["quick"]
 
 
@@ -90,6 +90,10 @@ def run_oriented(case, rec):
         dist = ["gaussian", "uniform", "rectangle", "boltzmann"][int(rng.integers(4))]
         sas.add_pd(pars, i.parameters[a], dist, int(rng.integers(2, 6)), float(rng.uniform(1, 40)),
                    float(rng.uniform(1.0, 1.7 if dist == "rectangle" else 3.0)))
+    if jit and k % 5 == 2:
+        # a one-point jitter distribution with a non-zero width is the single jitter angle 0
+        pars[jit[0] + "_pd_n"] = 1
+        rec.bucket("jitter:one-point-with-width")
     rec.bucket("jitter:%d" % nj)
     # size dispersity: sometimes so many dimensions that an angle does not get a loop slot
     sizes = [p for p in sas.usable_pd(i, pars, "2d") if p.type == "volume"]
@@ -141,6 +145,26 @@ def run_oriented(case, rec):
     rec.check("matches_documented_rotation", ok,
               None if ok else dict(ctx, observed=I, expected=ref, max_rel_err=core.maxrel(I, ref, 1e-10*I0)))
     rec.check("no_stale_result", not sas.has_poison(I), ctx)
+    # (0) the same model again with exactly one view angle changed (psi only, theta only, phi only): nothing may
+    # be carried over from the previous evaluation
+    for a in angles:
+        p1 = dict(pars)
+        p1[a] = pars[a] + float(rng.uniform(20, 70))
+        lo_a, hi_a = i.parameters[a].limits
+        if p1[a] > hi_a:
+            p1[a] = pars[a] - float(rng.uniform(20, 70))
+        I1 = np.asarray(direct_model.call_kernel(kernel, dict(p1)), float)
+        mesh1 = direct_model.get_mesh(i, p1, dim="2d")
+        ref1, _ = oracle.intensity(mesh1, (qx, qy), "2d", 0.0)
+        ok1 = core.close(I1, ref1, 1e-8, 1e-10*I0)
+        rec.check("matches_documented_rotation", ok1,
+                  None if ok1 else dict(ctx, note="second evaluation with only %s changed" % a, changed={a: p1[a]},
+                                        observed=I1, expected=ref1, max_rel_err=core.maxrel(I1, ref1, 1e-10*I0)))
+        rec.bucket("sequence:one-angle-changed")
+    # and back to the original request
+    Iagain = np.asarray(direct_model.call_kernel(kernel, dict(pars)), float)
+    rec.check("matches_documented_rotation", bool(np.array_equal(Iagain, I)),
+              dict(ctx, note="original request repeated after other view angles", first=I, again=Iagain))
     # (i) rotate the detector point and phi by the same angle
     delta = float(rng.uniform(-170, 170))
     c, s = math.cos(math.radians(delta)), math.sin(math.radians(delta))
